@@ -447,7 +447,7 @@ def run(ctx):
         return replay(ctx)
     quick = ctx.tier == 'quick'
     if quick:
-        cfg = c15.write_cfg(ctx, 'Interp16.cfg', dims=[1, 2], npoly=1, all1d=True, nrep=6, nrep3=1, full2d=False,
+        cfg = c15.write_cfg(ctx, 'Interp16.cfg', dims=[1, 2], npoly=1, all1d=True, nrep=5, nrep3=1, full2d=False,
                             interior=True, exset=[False])
     else:
         cfg = c15.write_cfg(ctx, 'Interp16.cfg', dims=[1, 2, 3], npoly=2, all1d=True, nrep=8, nrep3=3, full2d=True,
@@ -497,7 +497,7 @@ def run(ctx):
                 'w.r.t. table values: every method that offers it), 1/5 of the groups through MetaModelStructuredComp '
                 '(partials, training_data_gradients) and 1/3 of the 1-D groups through evaluate_spline and SplineComp; every '
                 'scenario is non-trivial (in-cell point, no node)' %
-                ('1-D: all 336 grids; 2-D: all pairs of %d representative grids' % (6 if quick else 8) +
+                ('1-D: all 336 grids; 2-D: all pairs of %d representative grids' % (5 if quick else 8) +
                  ('' if quick else ' with quarter points of every cell; 3-D: 3 grids, midpoints')))
     ctx.assumptions = [
         'C16 is partial (DESIGN.md section 7): the exact-derivative oracle exists only where the table is a polynomial of '
